@@ -1,0 +1,10 @@
+//! Child module of `persistence/redb/mod.rs` (feature `verif`).
+
+impl super::PersistentRedbStore {
+    /// What the one-second timer task does at a moment of its own choosing: queue a time-stamp update
+    /// behind whatever the core has queued so far. Lets a harness place the tick at every position of
+    /// the writer's queue.
+    pub async fn verif_queue_timestamp_update(&self) -> bool {
+        self.tx.send(super::StoreAction::UpdateTimestamp).await.is_ok()
+    }
+}
